@@ -8,5 +8,11 @@ CONSTANTS
   PKeys = {0, 1, 3, 5}
   AKeys = {100}
   MaxOps = 3
+  Uni = "w"
+  MaxInit = 4
+  MaxReq = 5
+  Bigs = {TRUE, FALSE}
+  InMemory = TRUE
+  Levels = {0, 1}
 INVARIANTS EmitAll OnlyRequested
 CHECK_DEADLOCK FALSE
